@@ -336,9 +336,21 @@ class Duration(timedelta):
 
         return rep.replace(", )", ")")
 
+    @staticmethod
+    def _native_microseconds(delta: timedelta) -> int:
+        # Exact length of a timedelta (years and months of a Duration
+        # counted as 365 and 30 days), without going through float seconds
+        return (
+            timedelta.days.__get__(delta) * (24 * 3600)
+            + timedelta.seconds.__get__(delta)
+        ) * 1000000 + timedelta.microseconds.__get__(delta)
+
     def __add__(self, other: timedelta) -> Self:
         if isinstance(other, timedelta):
-            return self.__class__(seconds=self.total_seconds() + other.total_seconds())
+            return self.__class__(
+                microseconds=self._native_microseconds(self)
+                + self._native_microseconds(other)
+            )
 
         return NotImplemented
 
@@ -346,7 +358,10 @@ class Duration(timedelta):
 
     def __sub__(self, other: timedelta) -> Self:
         if isinstance(other, timedelta):
-            return self.__class__(seconds=self.total_seconds() - other.total_seconds())
+            return self.__class__(
+                microseconds=self._native_microseconds(self)
+                - self._native_microseconds(other)
+            )
 
         return NotImplemented
 
@@ -375,7 +390,7 @@ class Duration(timedelta):
             return self.__class__(
                 years=self._years * other,
                 months=self._months * other,
-                seconds=self._total * other,
+                microseconds=self._to_microseconds() * other,
             )
 
         if isinstance(other, float):
